@@ -180,7 +180,7 @@ def rule_plumbing(ck: Check, repo: Repo) -> None:
         "style": "style", "force_multi": "multi_line", "skip_existing": "skip_existing",
         "skip_unrecognised": "skip_unrecognised", "fallback_dot_license": "fallback_dot_license",
         "merge_copyrights": "merge_copyrights", "replace": "not no_replace",
-    }, skip_self=False)
+    }, skip_self=False, blank_tolerant=("reuse_info",))
     # template / commented come from get_template(template_str, project)
     src = ast.unparse(an)
     ahf = find_calls(an, lambda c, f: f == "add_header_to_file")
@@ -501,6 +501,42 @@ def run(ck: Check, repo: Repo) -> None:
     c09.rule_no_mutation(ck, repo, "R6")
     rule_tables_roundtrip(ck, repo, folder, "R7")
     rule_writer_refusal(ck, repo)
+    rule_finder_ignore_context(ck, repo)
+    # 'in addition to what the file already declared': a new .license sibling must not hide it (shared with C09-R9)
+    c09.rule_sibling_hides(ck, repo, "R11")
+
+
+# ------------------------------------------------------------------ R10: the header finder and the reader agree on ignore blocks
+def rule_finder_ignore_context(ck: Check, repo: Repo, rid: str = "R10") -> None:
+    """The reader removes REUSE-IgnoreStart..REUSE-IgnoreEnd over the WHOLE text before it looks for tags.  The finder
+    that chooses the comment to replace asks its predicate about one comment at a time: a tag in a comment of its own
+    inside an ignore block (markers in other comments) is taken for the existing header, the new header is written
+    into the ignored region and nothing of it is read back - with exit 0.  Decided: the text the finder's predicate
+    sees, and whether the finder consults the ignore markers of the surrounding text at all."""
+    from ..rules import param_names, resolve_deep
+    r = ck.rule(rid, "the comment chosen as existing header is not inside an ignore block of the file (finder and reader agree on what is ignored)")
+    q = f"{HD}._find_first_spdx_comment"
+    fn = repo.func(q)
+    ck.analysed_fn(q)
+    preds = [c for c in ast.walk(fn) if isinstance(c, ast.Call) and ast.unparse(c.func).split(".")[-1] in ("contains_reuse_info", "extract_reuse_info")]
+    if not preds:
+        raise AnalysisError("_find_first_spdx_comment: finder predicate not found")
+    text_param = param_names(fn)[0]
+    whole = []
+    for c in preds:
+        a = resolve_deep(fn, c.args[0]) if c.args else None
+        whole.append(a is not None and isinstance(a, ast.Name) and a.id == text_param)
+    src = ast.unparse(fn)
+    consults = bool(re.search(r"(?i)ignore", re.sub(r"\"\"\".*?\"\"\"|\'\'\'.*?\'\'\'", "", src, flags=re.S)))
+    r.instance("finder-predicate-context", {"predicate_calls": len(preds), "sees_whole_text": whole, "consults_ignore_markers": consults}, q)
+    if consults:
+        ck.assumptions.append(f"C07-{rid}: the finder consults ignore markers; that it does so correctly is not decided")
+        return
+    if not all(whole):
+        r.violation(q, "the finder's predicate sees one comment at a time and never the ignore markers around it",
+                    "`# REUSE-IgnoreStart\\n\\n# SPDX-License-Identifier: 0BSD\\nx=1\\n# REUSE-IgnoreEnd` + `annotate -c Jane -l MIT`: the inner"
+                    " comment is replaced by the new header, `Successfully changed header`, exit 0 - and the reader, which drops the"
+                    " block as a whole, reads nothing back", repo.loc(fn))
 
 
 # ------------------------------------------------------------------ R7: writer tables vs reader tables over the SPDX list
